@@ -33,6 +33,12 @@ func NewFileDriver(f *filesystem.Htfs) *Fs {
 func (ftp *Fs) Init() {
 }
 
+// clone returns a driver on the same root with a working directory of its own
+func (ftp *Fs) clone() *Fs {
+	fs := *ftp.Htfs
+	return &Fs{&fs}
+}
+
 func (ftp *Fs) Stat(path string) (os.FileInfo, error) {
 	p := ftp.RealPath(path)
 
